@@ -107,11 +107,31 @@ def run(E: Engine, rep: Report, tier: str) -> dict:
     # --------------------------------------------------------- DISPATCH
     vr = E.fn(DEV + ".validate_register")
     vc = E.fn(DEV + "._validate_coords")
-    callees = {c.innermost().short for _n, _i, e in E.flow(vr).all_events() for c, _m in e.callees}
+    def reach(f0, depth=3):
+        """Callees of f0, followed through the private helpers it calls (an extracted helper is part of f0)."""
+        out, todo, seen = set(), [(f0, 0)], set()
+        while todo:
+            g, d = todo.pop()
+            if g.qualname in seen:
+                continue
+            seen.add(g.qualname)
+            for _n, _i, e in E.flow(g).all_events():
+                for c, _m in e.callees:
+                    h = c.innermost()
+                    out.add(h.short)
+                    if d < depth and h.name.startswith("_") and not h.name.startswith("__") and h.cls is not None and g.cls is not None and h.cls in E.P.mro(g.cls) + E.P.subclasses(g.cls) + [g.cls]:
+                        todo.append((h, d + 1))
+        return out
+
+    callees = reach(vr)
     for need in ("BaseDevice._validate_coords", "BaseDevice.validate_layout", "BaseDevice.validate_layout_filling"):
         rep.check(need in callees, "DISPATCH", f"validate_register|calls-{need.split('.')[-1]}", "reached from validate_register", f"validate_register no longer calls {need}", E.where(vr))
-    callees = {c.innermost().short for _n, _i, e in E.flow(vc).all_events() for c, _m in e.callees}
+    callees = reach(vc)
     for need in ("BaseDevice._validate_atom_number", "BaseDevice._validate_atom_distance", "BaseDevice._validate_radial_distance"):
+        if (DEV + "." + need.split(".")[-1]) not in E.P.functions:
+            # the private helper was inlined: its rejection atom is then required of _validate_coords itself (GUARD rows, fallback anchor)
+            rep.ok("DISPATCH", f"_validate_coords|calls-{need.split('.')[-1]}", "helper inlined into _validate_coords; its guard row is decided there", E.where(vc))
+            continue
         rep.check(need in callees, "DISPATCH", f"_validate_coords|calls-{need.split('.')[-1]}", "reached from _validate_coords", f"_validate_coords no longer calls {need}", E.where(vc))
     # the distance check is unconditional; the atom-number check applies to atoms only
     fl = E.flow(vc)
@@ -122,7 +142,7 @@ def run(E: Engine, rep: Report, tier: str) -> dict:
             rep.check(dnf == [[]], "DISPATCH", "_validate_coords|distance-check-unconditional", "every coordinate set is checked for minimum distance", f"the distance check became conditional: {[' AND '.join(l.show() for l in c) for c in dnf]}", E.where(vc, e.node))
     # Sequence.__init__ validates the register / layout
     init = E.method("pulser.sequence.sequence.Sequence", "__init__")
-    callees = {c.innermost().short for _n, _i, e in E.flow(init).all_events() for c, _m in e.callees}
+    callees = reach(init)
     for need in ("BaseDevice.validate_register", "BaseDevice.validate_layout", "BaseDevice.validate_layout_filling"):
         rep.check(need in callees, "DISPATCH", f"Sequence.__init__|calls-{need.split('.')[-1]}", "sequence creation validates the register against the device", f"Sequence.__init__ no longer calls {need}", E.where(init))
     # a register is installed in a sequence only after the device validated it (build() of a mappable register)
